@@ -46,6 +46,14 @@ pub fn bodies(full: bool) -> Vec<E> {
         out.push(E::App(None, "f".into(), vec![u.clone()]));
         out.push(E::Rec("a".into(), Box::new(obj(vec![prop("k", arr(u.clone()))]))));
     }
+    // two members: a use after another use / after a rec that binds the same name
+    out.push(obj(vec![prop("k", var("a")), prop("j", var("x"))]));
+    for u in us.iter().take(3) {
+        out.push(obj(vec![
+            prop("k", E::Rec("x".into(), Box::new(obj(vec![prop("k", arr(var("x")))])))),
+            prop("j", u.clone()),
+        ]));
+    }
     // two-argument applications: a later argument may be named like an earlier parameter
     for u1 in us.iter().take(3) {
         for u2 in us.iter().take(3) {
@@ -58,7 +66,6 @@ pub fn bodies(full: bool) -> Vec<E> {
             out.push(E::App(None, "g".into(), vec![u.clone()]));
             out.push(E::App(Some("m".into()), "f".into(), vec![u.clone()]));
         }
-        out.push(obj(vec![prop("k", var("a")), prop("j", var("x"))]));
     }
     out
 }
@@ -91,12 +98,15 @@ fn finals() -> Vec<E> {
     ]
 }
 
-fn imports() -> Vec<Option<Stmt>> {
+/// (import statement, placed after the declarations instead of before them)
+fn imports() -> Vec<(Option<Stmt>, bool)> {
     vec![
-        None,
-        Some(Stmt::Use("m.oal".into(), None)),
-        Some(Stmt::Use("m.oal".into(), Some("m".into()))),
-        Some(Stmt::Use("m.oal".into(), Some("a".into()))),
+        (None, false),
+        (Some(Stmt::Use("m.oal".into(), None)), false),
+        (Some(Stmt::Use("m.oal".into(), Some("m".into()))), false),
+        (Some(Stmt::Use("m.oal".into(), Some("a".into()))), false),
+        (Some(Stmt::Use("m.oal".into(), None)), true),
+        (Some(Stmt::Use("m.oal".into(), Some("m".into()))), true),
     ]
 }
 
@@ -155,19 +165,22 @@ impl Space {
             len += 1;
         }
         let mut stmts = Vec::new();
-        if let Some(u) = &imps[im] {
+        if let (Some(u), false) = &imps[im] {
             stmts.push(u.clone());
         }
         for _ in 0..len {
             stmts.push(self.decls[(rest % d) as usize].clone());
             rest /= d;
         }
+        if let (Some(u), true) = &imps[im] {
+            stmts.push(u.clone());
+        }
         stmts.push(Stmt::Res(rel(uri_lit(&[""]), vec![xfer(Method::Get, content(fin[f].clone()))])));
         let mut modules = vec![Module {
             name: "main.oal".into(),
             stmts,
         }];
-        if imps[im].is_some() {
+        if imps[im].0.is_some() {
             modules.push(module_m(mv));
         }
         Program { modules }
@@ -213,7 +226,7 @@ pub fn judge(p: &Program) -> Outcome {
                 // Any rejection is fine; a name error must be one the reference also sees.
                 let ok = match class {
                     "NotInScope" => reso.unbound,
-                    "InvalidIdentifier" => reso.duplicates,
+                    "InvalidIdentifier" => reso.duplicates || reso.decl_vs_import,
                     _ => true,
                 };
                 if ok {
@@ -226,6 +239,8 @@ pub fn judge(p: &Program) -> Outcome {
                         case(),
                     )
                 }
+            } else if class == "InvalidIdentifier" && reso.decl_vs_import {
+                Outcome::ok("declaration vs unqualified import reported as a duplicate", Some(hash_of("dvi")))
             } else if class == "NotInScope" || class == "InvalidIdentifier" {
                 Outcome::bad(
                     "spurious-name-error",
@@ -373,9 +388,9 @@ impl Engine for C08 {
         }
     }
     fn rule(&self) -> String {
-        "every program made of an optional import of m.oal (unqualified, `as m`, `as a`; two variants of m), a sequence of <= k declarations from heads {a, b, f x, f a, f x a, …} x bodies {num, a, b, x, m.a, {'k u}, f u, rec x {'k [u]}, rec a {'k [u]}, …} and one of 4 final uses; names are drawn from colliding pools so that parameters, rec binders, declarations and imports shadow each other. Oracle: definition() of every variable node == binder of the reference lexical resolver; unbound use / duplicate declaration <=> rejected with NotInScope / InvalidIdentifier; emitted document == lexically scoped reference evaluation. Non-trivial = accepted or rejected with a name error; distinct = distinct documents / rejection classes".into()
+        "every program made of an optional import of m.oal (unqualified, `as m`, `as a`, written before or after the declarations; two variants of m), a sequence of <= k declarations from heads {a, b, f x, f a, f x a, …} x bodies {num, a, b, x, m.a, {'k u}, f u, rec x {'k [u]}, rec a {'k [u]}, …} and one of 4 final uses; names are drawn from colliding pools so that parameters, rec binders, declarations and imports shadow each other. Oracle: definition() of every variable node == binder of the reference lexical resolver; unbound use / duplicate declaration <=> rejected with NotInScope / InvalidIdentifier; emitted document == lexically scoped reference evaluation. Non-trivial = accepted or rejected with a name error; distinct = distinct documents / rejection classes".into()
     }
     fn assumptions(&self) -> Vec<String> {
-        vec!["collisions the property does not order (declaration vs unqualified import or built-in, two imports providing one name, duplicate parameter names) are explored for crashes only".into()]
+        vec!["a declaration with the name of something an unqualified import provides: the declaration must win if the program is accepted; reporting the pair as a duplicate (InvalidIdentifier) is tolerated".into(), "collisions the property does not order (declaration vs built-in, two imports providing one name, duplicate parameter names) are explored for crashes only".into()]
     }
 }
